@@ -28,25 +28,30 @@ impl ValidatorParser {
                 found_validator = true;
                 // Parse the tokens inside the validate attribute
                 if let Ok(tokens) = syn::parse2::<syn::MetaList>(attr.meta.to_token_stream()) {
-                    // Convert tokens to string and do basic parsing for now
+                    // Convert tokens to string and look at its top-level items, so that text
+                    // inside a message (or another validator's arguments) is never mistaken
+                    // for a validator
                     let tokens_str = tokens.tokens.to_string();
 
-                    if tokens_str.contains("email") {
-                        validator_attrs.email = true;
-                    }
-
-                    if tokens_str.contains("url") {
-                        validator_attrs.url = true;
-                    }
-
-                    // Parse length constraints
-                    if let Some(length_constraint) = self.parse_length_from_tokens(&tokens_str) {
-                        validator_attrs.length = Some(length_constraint);
-                    }
-
-                    // Parse range constraints
-                    if let Some(range_constraint) = self.parse_range_from_tokens(&tokens_str) {
-                        validator_attrs.range = Some(range_constraint);
+                    for item in split_top_level(&tokens_str) {
+                        match item_name(&item).as_str() {
+                            "email" => validator_attrs.email = true,
+                            "url" => validator_attrs.url = true,
+                            "length" => {
+                                if let Some(length_constraint) =
+                                    self.parse_length_from_tokens(&item)
+                                {
+                                    validator_attrs.length = Some(length_constraint);
+                                }
+                            }
+                            "range" => {
+                                if let Some(range_constraint) = self.parse_range_from_tokens(&item)
+                                {
+                                    validator_attrs.range = Some(range_constraint);
+                                }
+                            }
+                            _ => {}
+                        }
                     }
                 }
             }
@@ -71,52 +76,18 @@ impl ValidatorParser {
             message: None,
         };
 
-        // Simple regex-like parsing for length(min = X, max = Y, message = "...")
-        if let Some(start) = tokens.find("length") {
-            if let Some(paren_start) = tokens[start..].find('(') {
-                if let Some(paren_end) = tokens[start + paren_start..].find(')') {
-                    let content = &tokens[start + paren_start + 1..start + paren_start + paren_end];
-
-                    // Parse min = value
-                    if let Some(min_pos) = content.find("min") {
-                        if let Some(eq_pos) = content[min_pos..].find('=') {
-                            let after_eq = &content[min_pos + eq_pos + 1..];
-                            if let Some(comma_pos) = after_eq.find(',') {
-                                let value_str = after_eq[..comma_pos].trim();
-                                if let Ok(value) = value_str.parse::<u64>() {
-                                    constraint.min = Some(value);
-                                }
-                            } else {
-                                let value_str = after_eq.trim();
-                                if let Ok(value) = value_str.parse::<u64>() {
-                                    constraint.min = Some(value);
-                                }
-                            }
-                        }
-                    }
-
-                    // Parse max = value
-                    if let Some(max_pos) = content.find("max") {
-                        if let Some(eq_pos) = content[max_pos..].find('=') {
-                            let after_eq = &content[max_pos + eq_pos + 1..];
-                            if let Some(comma_pos) = after_eq.find(',') {
-                                let value_str = after_eq[..comma_pos].trim();
-                                if let Ok(value) = value_str.parse::<u64>() {
-                                    constraint.max = Some(value);
-                                }
-                            } else {
-                                let value_str = after_eq.trim();
-                                if let Ok(value) = value_str.parse::<u64>() {
-                                    constraint.max = Some(value);
-                                }
-                            }
-                        }
-                    }
-
-                    // Parse message = "..."
-                    constraint.message = self.parse_message_from_content(content);
+        // length(min = X, max = Y, message = "...")
+        if let Some(content) = validator_arguments(tokens, "length") {
+            for (name, value) in named_arguments(&content) {
+                match name.as_str() {
+                    "min" => constraint.min = number_text(&value).parse::<u64>().ok(),
+                    "max" => constraint.max = number_text(&value).parse::<u64>().ok(),
+                    _ => {}
                 }
             }
+
+            // Parse message = "..."
+            constraint.message = self.parse_message_from_content(&content);
         }
 
         Some(constraint)
@@ -134,52 +105,18 @@ impl ValidatorParser {
             message: None,
         };
 
-        // Simple regex-like parsing for range(min = X, max = Y, message = "...")
-        if let Some(start) = tokens.find("range") {
-            if let Some(paren_start) = tokens[start..].find('(') {
-                if let Some(paren_end) = tokens[start + paren_start..].find(')') {
-                    let content = &tokens[start + paren_start + 1..start + paren_start + paren_end];
-
-                    // Parse min = value
-                    if let Some(min_pos) = content.find("min") {
-                        if let Some(eq_pos) = content[min_pos..].find('=') {
-                            let after_eq = &content[min_pos + eq_pos + 1..];
-                            if let Some(comma_pos) = after_eq.find(',') {
-                                let value_str = after_eq[..comma_pos].trim();
-                                if let Ok(value) = value_str.parse::<f64>() {
-                                    constraint.min = Some(value);
-                                }
-                            } else {
-                                let value_str = after_eq.trim();
-                                if let Ok(value) = value_str.parse::<f64>() {
-                                    constraint.min = Some(value);
-                                }
-                            }
-                        }
-                    }
-
-                    // Parse max = value
-                    if let Some(max_pos) = content.find("max") {
-                        if let Some(eq_pos) = content[max_pos..].find('=') {
-                            let after_eq = &content[max_pos + eq_pos + 1..];
-                            if let Some(comma_pos) = after_eq.find(',') {
-                                let value_str = after_eq[..comma_pos].trim();
-                                if let Ok(value) = value_str.parse::<f64>() {
-                                    constraint.max = Some(value);
-                                }
-                            } else {
-                                let value_str = after_eq.trim();
-                                if let Ok(value) = value_str.parse::<f64>() {
-                                    constraint.max = Some(value);
-                                }
-                            }
-                        }
-                    }
-
-                    // Parse message = "..."
-                    constraint.message = self.parse_message_from_content(content);
+        // range(min = X, max = Y, message = "...")
+        if let Some(content) = validator_arguments(tokens, "range") {
+            for (name, value) in named_arguments(&content) {
+                match name.as_str() {
+                    "min" => constraint.min = number_text(&value).parse::<f64>().ok(),
+                    "max" => constraint.max = number_text(&value).parse::<f64>().ok(),
+                    _ => {}
                 }
             }
+
+            // Parse message = "..."
+            constraint.message = self.parse_message_from_content(&content);
         }
 
         Some(constraint)
@@ -188,46 +125,117 @@ impl ValidatorParser {
     /// Parse message parameter from validator content
     /// Handles both "message = \"text\"" and "message = 'text'" formats
     fn parse_message_from_content(&self, content: &str) -> Option<String> {
-        if let Some(msg_pos) = content.find("message") {
-            if let Some(eq_pos) = content[msg_pos..].find('=') {
-                let after_eq = &content[msg_pos + eq_pos + 1..].trim_start();
+        let (_, value) = named_arguments(content)
+            .into_iter()
+            .find(|(name, _)| name == "message")?;
 
-                // Try to find string in quotes (either " or ')
-                if let Some(quote_char) = after_eq.chars().next() {
-                    if quote_char == '"' || quote_char == '\'' {
-                        // Find the closing quote, handling escaped quotes
-                        let rest = &after_eq[1..];
-                        let chars = rest.chars().enumerate();
-                        let mut escaped = false;
+        let mut chars = value.chars();
+        let quote_char = chars.next()?;
+        if quote_char != '"' && quote_char != '\'' {
+            return None;
+        }
 
-                        for (i, ch) in chars {
-                            if escaped {
-                                escaped = false;
-                                continue;
-                            }
-                            if ch == '\\' {
-                                escaped = true;
-                                continue;
-                            }
-                            if ch == quote_char {
-                                // Found closing quote
-                                let message = &rest[..i];
-                                // Unescape common escape sequences
-                                let unescaped = message
-                                    .replace("\\\"", "\"")
-                                    .replace("\\'", "'")
-                                    .replace("\\n", "\n")
-                                    .replace("\\t", "\t")
-                                    .replace("\\\\", "\\");
-                                return Some(unescaped);
-                            }
-                        }
-                    }
-                }
+        // Read up to the closing quote, undoing escape sequences on the way
+        let mut message = String::new();
+        while let Some(ch) = chars.next() {
+            if ch == quote_char {
+                return Some(message);
+            }
+            if ch != '\\' {
+                message.push(ch);
+                continue;
+            }
+            match chars.next() {
+                Some('n') => message.push('\n'),
+                Some('t') => message.push('\t'),
+                Some('r') => message.push('\r'),
+                Some(other) => message.push(other),
+                None => return None,
             }
         }
         None
     }
+}
+
+/// Split a token string at the commas that are outside string literals and parentheses
+fn split_top_level(text: &str) -> Vec<String> {
+    let mut items = Vec::new();
+    let mut current = String::new();
+    let mut depth = 0;
+    let mut quote: Option<char> = None;
+    let mut escaped = false;
+
+    for ch in text.chars() {
+        if let Some(q) = quote {
+            current.push(ch);
+            if escaped {
+                escaped = false;
+            } else if ch == '\\' {
+                escaped = true;
+            } else if ch == q {
+                quote = None;
+            }
+            continue;
+        }
+        match ch {
+            '"' => {
+                quote = Some(ch);
+                current.push(ch);
+            }
+            '(' | '[' | '{' => {
+                depth += 1;
+                current.push(ch);
+            }
+            ')' | ']' | '}' => {
+                depth -= 1;
+                current.push(ch);
+            }
+            ',' if depth == 0 => items.push(std::mem::take(&mut current)),
+            _ => current.push(ch),
+        }
+    }
+    if !current.trim().is_empty() {
+        items.push(current);
+    }
+
+    items.iter().map(|item| item.trim().to_string()).collect()
+}
+
+/// The identifier an item starts with (`length` for `length (min = 1)`)
+fn item_name(item: &str) -> String {
+    item.chars()
+        .take_while(|c| c.is_alphanumeric() || *c == '_')
+        .collect()
+}
+
+/// The text between the parentheses of the top-level item called `name`
+fn validator_arguments(tokens: &str, name: &str) -> Option<String> {
+    let item = split_top_level(tokens)
+        .into_iter()
+        .find(|item| item_name(item) == name)?;
+    let rest = item[name.len()..].trim();
+    let inner = rest.strip_prefix('(')?.strip_suffix(')')?;
+    Some(inner.to_string())
+}
+
+/// The `name = value` pairs of a validator's argument list
+fn named_arguments(content: &str) -> Vec<(String, String)> {
+    split_top_level(content)
+        .iter()
+        .filter_map(|argument| {
+            let name = item_name(argument);
+            let value = argument[name.len()..].trim_start().strip_prefix('=')?;
+            Some((name, value.trim().to_string()))
+        })
+        .collect()
+}
+
+/// A numeric literal as printed in a token string (`- 5`, `1_000`) in the form `str::parse` accepts
+fn number_text(value: &str) -> String {
+    value
+        .chars()
+        .filter(|c| !c.is_whitespace() && *c != '_')
+        .collect()
 }
 
 impl Default for ValidatorParser {
